@@ -28,7 +28,7 @@ def main(argv):
     core.use_repo()
     from .seams import SEAMS
     import graphtage
-    from graphtage.__main__ import main as gmain
+    from .seams import run_command
     from graphtage import printer as gprinter
     from . import sched
     with open(spec_path) as f:
@@ -43,7 +43,10 @@ def main(argv):
                 item = spec["items"][entry["item"]]
                 if item.get("stdin") is not None:
                     sys.stdin = _Stdin(item["stdin"].encode("utf-8"))   # `-` on the command line: spooled to a temp file
-                rec["rc"] = gmain(["graphtage"] + item["argv"])
+                rc, extra_err, exc = run_command(["graphtage"] + item["argv"])
+                if exc is not None:
+                    raise exc
+                rec["rc"] = rc
             elif entry["kind"] == "lib":
                 # a library user between two CLI-style calls: build, diff, print with its own Printer
                 wl = spec["lib_docs"][entry["doc"] % len(spec["lib_docs"])]
